@@ -800,6 +800,8 @@ def main(tier):
             "harnesses": len(groups),
             "harness_results_reused_from_content_cache": sum(1 for r in results.values() if r.get("cached")),
             "failing_units": [u for _, u in failing],
+            "not_discharged": [{"unit": u, "reason": "fails: see counterexamples / known_findings_hit"} for _, u in failing]
+                              + [{"unit": u, "reason": "vacuous"} for u in vacuous],
             "refusal_only_units_all_refused": refusal_only_ok,
             "counterexamples": cex_info,
             "known_findings_hit": [k for k, _ in rep.known_hit],
